@@ -70,3 +70,21 @@ Theorem C08_source_Values_accessors_are_the_model : forall m now k,
   G_Values_GetAll m now k = PVal (values_get_all m k).
 Proof. intros m now k. exact (conj (G_Values_Get_eq m now k) (conj (G_Values_GetSize_eq m now k) (G_Values_GetAll_eq m now k))). Qed.
 Print Assumptions C08_source_Values_accessors_are_the_model.
+
+(* the composed source (P_Pipeline.v): whenever ValidateEncodedResponse over the translated parseResponse / decryptAssertions /
+   getDecryptCert / DecryptBytes / validation stage accepts with response r, the model accepts with the same r, and the
+   translated RetrieveAssertionInfo handed that result returns exactly the model's summary of r *)
+From V Require Import Xml Ns Decode Decrypt Deflate Response Keys GenPreludeD GenPreludeT GenPreludeE GenPreludeK GenPreludeDeflate
+     GenTree GenDecrypt GenDecTree GenKeys GenDeflate P_GenTree P_GenDecTree P_Pipeline.
+Theorem C08_source_info_pipeline :
+  forall inflate read_from_bytes rt_ok dsig rsa_oaep rsa_pkcs1 gcm_open cbc_decrypt sha1_hex parse_cert cfg kc venc now enc r,
+    G_ValidateEncodedResponse (src_parse inflate read_from_bytes rt_ok cfg) dsig
+      (src_decrypt_all inflate read_from_bytes rt_ok rsa_oaep rsa_pkcs1 gcm_open cbc_decrypt parse_cert cfg kc venc now) cfg now enc
+    = PVal (Ok (Some r)) ->
+    entry (model_parse inflate read_from_bytes rt_ok cfg) enc
+      (validate_response_tree dsig
+         (src_chain inflate read_from_bytes rt_ok rsa_oaep rsa_pkcs1 gcm_open cbc_decrypt sha1_hex parse_cert cfg kc venc now) cfg now)
+    = Ok (Some r) /\
+    G_RetrieveAssertionInfo cfg now enc (Ok (Some r)) = PVal (res_some (retrieve_info cfg now (Ok r))).
+Proof. exact source_info_pipeline. Qed.
+Print Assumptions C08_source_info_pipeline.
